@@ -207,7 +207,7 @@ func genHTTPFaultSpec(r *R, faults bool) httpFaultSpec {
 		sp.Behaviours = append(sp.Behaviours, genPeerBehaviour(f, faults))
 	}
 	if faults {
-		sp.ConnFaults = []string{"", "", "", "refuse-some", "dial-timeout-some"}[f.Draw(5)]
+		sp.ConnFaults = []string{"", "", "", "refuse-some", "dial-timeout-some", "partition-short", "partition-long"}[f.Draw(7)]
 	}
 	return sp
 }
@@ -260,6 +260,14 @@ func runHTTPFaults(r *R, sp httpFaultSpec) *httpFaultOutcome {
 	out.Res = runHTTPPool(r, httpPoolSpec{Ammo: ammo, Gun: gun, Instances: sp.Inst, Tokens: out.Fired + 2, Files: map[string][]byte{"/ammo/ammo.txt": []byte(b.String())}, Horizon: 2 * time.Hour},
 		func(nw *simnet.Net) {
 			nw.Latency = sp.Lat
+			switch sp.ConnFaults {
+			case "partition-short":
+				// all traffic is held for 300 ms and then delivered (shorter than every client timeout)
+				nw.PartitionFrom, nw.PartitionTo = time.Now().Add(20*time.Millisecond), time.Now().Add(320*time.Millisecond)
+			case "partition-long":
+				// ... for 5 s: longer than the response-header and dial timeouts
+				nw.PartitionFrom, nw.PartitionTo = time.Now().Add(20*time.Millisecond), time.Now().Add(5020*time.Millisecond)
+			}
 			nw.Plan = func(idx int, addr string) simnet.ConnPlan {
 				p := simnet.NoPlan()
 				p.ChunkC2S, p.ChunkS2C = sp.Chunk, sp.Chunk*2
